@@ -155,6 +155,10 @@ func rtExec(c *Ctx, op string) {
 	if s0.Digest(true) != s1.Digest(true) {
 		c.PropFail("pack-mutates-source", "source tree changed by pack: "+DiffFilesets(s0, s1, true), op)
 	}
+	if err != nil && pan == "" {
+		// the fileset was materialised on disk as generated: a pack that refuses it cannot round-trip it
+		c.PropFail("pack-refused", "pack of a well-formed fileset failed: "+err.Error(), op)
+	}
 	if err != nil || pan != "" {
 		c.H("pack:fail")
 		return
